@@ -821,6 +821,16 @@ def _argsort(ex, st, args, kwargs, node):
             return st.alloc(c, res_prev)
         if cn0 is None and a_prev.elem is a.elem:
             return st.alloc(c, res_prev)
+    if cn0 is not None:
+        vals = [a.elem((k,)) for k in range(cn0)]
+        cv = [conc_int(x) if not isinstance(x, float) else x for x in vals]
+        if all(x is not None for x in cv) and len(set(cv)) == len(cv):
+            # concrete, pairwise different keys: the sorting permutation is unique
+            order = sorted(range(cn0), key=lambda k: cv[k])
+            invp = {k: pos for pos, k in enumerate(order)}
+            res = Arr((cn0,), lambda ix, order=order: _select(order, ix[0]), 'int',
+                      inv=lambda j, invp=invp, n_=cn0: _select([invp[k] for k in range(n_)], j))
+            return st.alloc(c, res)
     if c.mode == 'bmc':
         # bounded instance: the permutation is n fresh integers constrained as below (quantifier free)
         cn = conc_int(n)
@@ -844,8 +854,9 @@ def _argsort(ex, st, args, kwargs, node):
     i, j = c.fresh('pi'), c.fresh('pj')
     st.assume(z3.ForAll([i], z3.Implies(z3.And(0 <= i, i < n), z3.And(0 <= pf(i), pf(i) < n, qf(pf(i)) == i)), patterns=[pf(i)]))
     st.assume(z3.ForAll([j], z3.Implies(z3.And(0 <= j, j < n), z3.And(0 <= qf(j), qf(j) < n, pf(qf(j)) == j)), patterns=[qf(j)]))
-    st.assume(z3.ForAll([i, j], z3.Implies(z3.And(0 <= i, i < j, j < n), a.elem((pf(i),)) <= a.elem((pf(j),))),
-                        patterns=[z3.MultiPattern(pf(i), pf(j))]))
+    i2, j2 = c.fresh('pi'), c.fresh('pj')      # (fresh bound constants: z3 5.1 rejects a MultiPattern over constants already bound above)
+    st.assume(z3.ForAll([i2, j2], z3.Implies(z3.And(0 <= i2, i2 < j2, j2 < n), a.elem((pf(i2),)) <= a.elem((pf(j2),))),
+                        patterns=[z3.MultiPattern(pf(i2), pf(j2))]))
     c.last_perm = (pf, qf)          # exposed to contracts as witnesses (the permutation and its inverse)
     res = Arr((a.shape[0],), lambda ix, pf=pf: pf(to_int(ix[0])), 'int', inv=lambda j, qf=qf: qf(to_int(j)))
     cache.append((a, res))
